@@ -34,7 +34,9 @@ CONSTANTS MaxLen,        \* bound on the canonical chain (numbers 0..MaxLen-1)
           MaxPc,         \* bound on the number of stored pre-confirmed blocks
           Txs(_, _),     \* Txs(n, v): transaction ids of the block at height n, variant v
           Ev(_),         \* Ev(t): the events of transaction t, a sequence of [a |-> address, k |-> <<keys>>]
-          FilterMenu,    \* filters a getEvents may use: [addrs |-> set, keys |-> sequence of sets]
+          FilterMenu,    \* filters a getEvents may use: [addrs |-> set, keys |-> sequence of sets, huge |-> 0]
+                         \* huge = 1: one position with MaxEventFilterKeys - 1 keys no event has (1024 in total: at the limit),
+                         \* huge = 2: one key more (TOO_MANY_KEYS_IN_FILTER)
           ChunkMenu,     \* chunk sizes of complete paged queries
           FromKinds, ToKinds,   \* identifier kinds tried for from_block / to_block
           WithEvents,    \* complete paged queries (GetEventsAll)
@@ -300,6 +302,10 @@ BigChunk == MaxChunk + 1
 
 Item(b, h, x) == [b |-> b, h |-> h, t |-> x.t, ti |-> x.ti, ei |-> x.ei]
 
+(* the filter the request really carries *)
+Eff(f) == IF f.huge = 1 THEN [f EXCEPT !.keys = <<{99}>>] ELSE f
+BadTok(tok) == tok.b = -7      \* a string that is not "<block>-<processed>"
+
 (* ---- declarative ---- *)
 (* the block with number b of (canonical chain ∪ view) *)
 ExtEvents(vw, b) == IF b <= Height THEN FlatTab[Prefix(chain, b + 1)][Len(TxsOf(Prefix(chain, b + 1))) + 1]
@@ -344,9 +350,10 @@ DEvents(a, vc) ==
       hi == DTo(a.to, vw) IN
   IF a.chunk = 0 THEN Err("InvalidParams")
   ELSE IF a.chunk > MaxChunk THEN Err("PageSizeTooBig")
-  ELSE IF a.f.huge THEN Err("TooManyKeys")
+  ELSE IF a.f.huge = 2 THEN Err("TooManyKeys")
+  ELSE IF "tok" \in DOMAIN a /\ BadTok(a.tok) THEN Err("InvalidToken")
   ELSE IF lo = -2 \/ hi = -2 THEN Err("BlockNotFound")
-  ELSE [kind |-> "pages", pages |-> Chop(NaiveScan(a.f, vw, lo, Min(hi, Height + Len(vw))), a.chunk)]
+  ELSE [kind |-> "pages", pages |-> Chop(NaiveScan(Eff(a.f), vw, lo, Min(hi, Height + Len(vw))), a.chunk)]
 
 (* ---- implementation ---- *)
 (* setEventFilterRange: raw numbers, -2 = error *)
@@ -425,18 +432,19 @@ IEventsHead(a, vc) ==      \* the checks of Handler.Events before the filter run
       to == IRawTo(a.to, vc) IN
   IF a.chunk = 0 THEN Err("InvalidParams")          \* validate:"min=1"
   ELSE IF a.chunk > MaxChunk THEN Err("PageSizeTooBig")
-  ELSE IF a.f.huge THEN Err("TooManyKeys")
+  ELSE IF a.f.huge = 2 THEN Err("TooManyKeys")
+  ELSE IF "tok" \in DOMAIN a /\ BadTok(a.tok) THEN Err("InvalidToken")    \* ContinuationToken.FromString fails
   ELSE IF from = -2 \/ to = -2 THEN Err("BlockNotFound")
   ELSE NoRes
 
 IEvents(a, vc) ==
   IF IEventsHead(a, vc) # NoRes THEN IEventsHead(a, vc)
   ELSE [kind |-> "pages",
-        pages |-> IFollow(a.f, IRawFrom(a.from, vc), IRawTo(a.to, vc), a.chunk, NoTok, vc, 40)]
+        pages |-> IFollow(Eff(a.f), IRawFrom(a.from, vc), IRawTo(a.to, vc), a.chunk, NoTok, vc, 40)]
 
 IEventsPage(a, vc) ==      \* one page with the caller's token
   IF IEventsHead(a, vc) # NoRes THEN IEventsHead(a, vc)
-  ELSE LET pg == IPage(a.f, IRawFrom(a.from, vc), IRawTo(a.to, vc), a.chunk, a.tok, vc) IN
+  ELSE LET pg == IPage(Eff(a.f), IRawFrom(a.from, vc), IRawTo(a.to, vc), a.chunk, a.tok, vc) IN
        [kind |-> "page", evs |-> pg.acc, tok |-> pg.tok]
 
 (* pages of the two layers agree: same events page by page, a token exactly when more follow *)
@@ -684,8 +692,8 @@ IRes(a, vc) ==
 Read(a) ==
   /\ act' = a
   /\ res' = IRes(a, "v9") /\ res8' = IRes(a, "v8")
-  /\ want' = (IF a.name = "getEvents" /\ "tok" \in DOMAIN a THEN NoRes ELSE DWant(a, "v9"))
-  /\ want8' = (IF a.name = "getEvents" /\ "tok" \in DOMAIN a THEN NoRes ELSE DWant(a, "v8"))
+  /\ want' = (IF a.name = "getEvents" /\ "tok" \in DOMAIN a /\ ~BadTok(a.tok) THEN NoRes ELSE DWant(a, "v9"))
+  /\ want8' = (IF a.name = "getEvents" /\ "tok" \in DOMAIN a /\ ~BadTok(a.tok) THEN NoRes ELSE DWant(a, "v8"))
   /\ UNCHANGED dbvars
 
 EvArg(f, from, to, chunk) == [name |-> "getEvents", f |-> f, from |-> from, to |-> to, chunk |-> chunk]
@@ -706,9 +714,10 @@ TokArgs == {[b |-> b, p |-> p] : b \in 0..MaxPath, p \in 0..3}
 EventReads ==
   \E f \in FilterMenu, c \in ChunkMenu, fk \in FromKinds, tk \in ToKinds :
     \E from \in IdsOfKind(fk), to \in IdsOfKind(tk) : GetEventsAll(f, from, to, c)
-ErrorReads ==
-  \/ \E f \in FilterMenu, c \in {0, BigChunk} : GetEventsAll(f, NoId, NoId, c)
-  \/ \E f \in FilterMenu : GetEventsAll([f EXCEPT !.huge = TRUE], NoId, NoId, 2)
+ErrorReads ==     \* each limit from both sides, and strings that are not tokens
+  \/ \E f \in FilterMenu, c \in {0, MaxChunk, BigChunk} : GetEventsAll(f, NoId, NoId, c)
+  \/ \E f \in FilterMenu, hg \in {1, 2} : GetEventsAll([f EXCEPT !.huge = hg], NoId, NoId, 2)
+  \/ \E f \in FilterMenu, g \in 0..3 : GetEventsPage(f, NoId, NoId, 2, [b |-> -7, p |-> g])
 TokenReads ==
   \E f \in FilterMenu, c \in ChunkMenu, tok \in TokArgs, tk \in {"none", "pre_confirmed"} :
     GetEventsPage(f, NoId, TagId(tk), c, tok)
@@ -760,7 +769,8 @@ ViewResolution ==
 
 IsRead(a) == a.name \notin {"Init", "Store", "Revert", "SetL1Head", "PcAdvance", "PcFull", "PcDelta"}
 IsEventsAll(a) == a.name = "getEvents" /\ "tok" \notin DOMAIN a
-IsEventsPage(a) == a.name = "getEvents" /\ "tok" \in DOMAIN a
+IsEventsPage(a) == a.name = "getEvents" /\ "tok" \in DOMAIN a /\ ~BadTok(a.tok)
+IsBadToken(a) == a.name = "getEvents" /\ "tok" \in DOMAIN a /\ BadTok(a.tok)
 
 (* the known deviation: l1_accepted above the height in a getEvents range *)
 KnownDeviation(a) ==
@@ -772,6 +782,7 @@ KnownDeviation(a) ==
    when specified *)
 EventsAnswerFromChain ==
   [][IsEventsAll(act') /\ ~KnownDeviation(act') => PagesAgree(res', want') /\ PagesAgree(res8', want8')]_vars
+BadTokenRejected == [][IsBadToken(act') => res' = want' /\ res8' = want8' /\ res' = Err("InvalidToken")]_vars
 EventsAnswerFromChainStrict ==
   [][IsEventsAll(act') => PagesAgree(res', want') /\ PagesAgree(res8', want8')]_vars
 
@@ -804,7 +815,7 @@ IsSubSeq(s, t) == SubSeqFrom(s, 1, t, 1)
 ForeignTokenSound ==
   [][(IsEventsPage(act') /\ res'.kind = "page") =>
        LET vw == IView
-           all == NaiveScan(act'.f, vw, 0, DTo(act'.to, vw)) IN
+           all == NaiveScan(Eff(act'.f), vw, 0, DTo(act'.to, vw)) IN
        Len(res'.evs) <= Len(all) /\ IsSubSeq(res'.evs, all)]_vars
 
 (* A storage value written by a view block for a contract that neither the canonical state nor the
@@ -832,4 +843,20 @@ PreConfirmedFinality ==
      /\ (res8'.kind \in {"receipt", "status"} => res8'.fin # "PRE_CONFIRMED")]_vars
 
 ReadsArePure == [][IsRead(act') => UNCHANGED dbvars]_vars
+
+(* ---- witnesses: invariants that must be VIOLATED (run without VIEW): the antecedents of the
+   properties above are reachable in the exhaustive configurations ---- *)
+(* a complete query of >= 3 pages one of which mixes canonical and pre-confirmed events *)
+WitnessNoPagingAcrossHead ==
+  ~(/\ IsEventsAll(act) /\ res.kind = "pages" /\ Len(res.pages) >= 3
+    /\ \E j \in 1..Len(res.pages) : (\E x \in Range(res.pages[j].evs) : x.h = NoHashP)
+                                     /\ (\E y \in Range(res.pages[j].evs) : y.h # NoHashP))
+(* a receipt found in a view block that is NOT the tip *)
+WitnessNoReceiptBelowTip ==
+  ~(/\ act.name = "getTransactionReceipt" /\ res.kind = "receipt" /\ res.fin = "PRE_CONFIRMED"
+    /\ chain # <<>> /\ Len(IView) = 2 /\ res.n = Height + 1)
+(* a state read answered from a view of two blocks built on another block than the head *)
+WitnessNoStaleOverlayRead ==
+  ~(/\ act.name = "getStorageAt" /\ act.id.k = "pre_confirmed" /\ res.kind = "felt" /\ res8 # res
+    /\ chain # <<>> /\ ~IsFallback(IView[1]) /\ ~ViewOnChain)
 =============================================================================
